@@ -319,6 +319,15 @@ func GenCrash(t *rapid.T) Scenario {
 	return sc
 }
 
+// GenCrashFull draws a scenario in which the full node's process dies and is started again on what is on disk.
+func GenCrashFull(t *rapid.T) Scenario {
+	sc := Gen(t)
+	sc.RestartFull = 0
+	sc.CrashFull = rapid.IntRange(1, sc.Blocks).Draw(t, "crashfullat")
+	sc.CrashFullOps = rapid.IntRange(0, 14).Draw(t, "crashfullops")
+	return sc
+}
+
 func (r *Result) Judge(id string, oracle func() *world.Problem) world.Verdict {
 	if r.Inconclusive != "" {
 		return world.Verdict{Excluded: true, Labels: append([]string{"rw:inconclusive"}, r.Labels...), Observations: []string{"rw-inconclusive: " + r.Inconclusive}}
@@ -327,8 +336,14 @@ func (r *Result) Judge(id string, oracle func() *world.Problem) world.Verdict {
 	if r.CrashStart != "" {
 		return world.Fail(id+"/real/aggregator-unusable-after-crash", "%s", r.CrashStart)
 	}
+	if r.TxStuck != "" {
+		if id == "C11" || id == "C13" {
+			return world.Fail(id+"/real/tx-never-included", "%s", r.TxStuck)
+		}
+		return world.Verdict{Excluded: true, Labels: append(labels, "rw:tx-never-included")}
+	}
 	if r.AggStall != "" {
-		if id == "C02" || id == "C07" || (id == "C06" && r.Sc.MaxPending == 0) {
+		if id == "C02" || id == "C05" || id == "C07" || (id == "C06" && r.Sc.MaxPending == 0) {
 			// not this property's subject (C01 / C08 / C11 / C13 judge it)
 			return world.Verdict{Excluded: true, Labels: append(labels, "rw:aggregator-stalled")}
 		}
